@@ -97,6 +97,23 @@ def r_repeated_metadata(doc, rng):
             other = {'HELP': '# HELP %s other text' % f.mname(), 'TYPE': '# TYPE %s %s' % (f.mname(), 'gauge' if f.typ != 'gauge' else 'counter'),
                      'UNIT': '# UNIT %s %s' % (f.mname(), f.unit)}[kind]
             yield 'second, different %s line of family %d' % (kind, fi), render_with(doc, fi, meta=m + [other])
+        # the FIRST occurrence carries the EMPTY value (`# UNIT name ` / `# HELP name `, one trailing blank — the only spelling the
+        # parser reads as empty): a second line of the kind, empty again or with a real value, directly after it and after every
+        # later metadata line of the block
+        for kind in ('UNIT', 'HELP'):
+            rest = [x for x, k in zip(m, f.meta) if k != kind]
+            empty = '# %s %s ' % (kind, f.mname())
+            seconds = [empty]
+            if kind == 'HELP':
+                seconds += ['# HELP %s other text' % f.mname(), '# HELP %s  ' % f.mname()]
+            elif f.unit:
+                seconds.append('# UNIT %s %s' % (f.mname(), f.unit))
+            for p in range(len(rest) + 1):
+                for q in range(p, len(rest) + 1):
+                    for second in seconds:
+                        meta = rest[:p] + [empty] + rest[p:q] + [second] + rest[q:]
+                        yield ('empty %s line of family %d at %d, second %r at %d' % (kind, fi, p, second[2:6] + second[len(empty) - 1:], q),
+                               render_with(doc, fi, meta=meta))
 
 
 def r_late_metadata(doc, rng):
